@@ -2105,9 +2105,10 @@ impl<'a, F: Function + MathFunction + Clone + Cross> World<'a, F> {
             self.ch(|c| c.choose("slot", ns)) as usize
         };
         let weights: &[u32] = match self.mode {
-            // eval, simplify, new, recycle, clone, move, held, rh, shape-eval
-            Mode::C10 => &[10, 5, 2, 2, 1, 1, 2, 3, 4],
-            Mode::C04 => &[8, 9, 2, 1, 1, 1, 0, 5, 0],
+            // eval, simplify, new, recycle, clone, move, held, rh, shape-eval,
+            // ageing burst
+            Mode::C10 => &[10, 5, 2, 2, 1, 1, 2, 3, 4, 1],
+            Mode::C04 => &[8, 9, 2, 1, 1, 1, 0, 5, 0, 0],
         };
         let total: u32 = weights.iter().sum();
         let mut r = self.ch(|c| c.choose("op", total));
@@ -2145,7 +2146,134 @@ impl<'a, F: Function + MathFunction + Clone + Cross> World<'a, F> {
             }
             6 => self.op_eval_held(w),
             7 => self.op_render_handle(w, s),
-            _ => self.op_shape_eval(w, s),
+            8 => self.op_shape_eval(w, s),
+            _ => self.op_age(w, s),
+        }
+    }
+
+    /// Ageing burst: the worker's long-lived objects (workspace, evaluators,
+    /// recycled storage) go through many more uses than a history has
+    /// operations - as a render worker's do - so that anything that counts
+    /// uses (generation stamps, high-water marks) crosses its 8- and 16-bit
+    /// boundaries.  The burst itself only repeats one call with the same
+    /// arguments; a repetition that panics although the first one returned is a
+    /// violation, and the operations that follow compare the aged objects with
+    /// fresh ones as usual.
+    fn op_age(&mut self, w: usize, s: usize) {
+        if self.all_fresh {
+            return;
+        }
+        let reps: u32 = match self.ch(|c| c.choose("age_reps", 400)) {
+            0 => 65_700,
+            1..=100 => 300,
+            _ => 20,
+        };
+        // a long burst only on small functions (cost)
+        let reps = if reps > 1000 && self.slots[s].dirty.size() > 60 { 300 } else { reps };
+        let what = self.ch(|c| c.choose("age_what", 4));
+        let nvars = self.slots[s].dirty.vars().len();
+        self.rep.count("op.ageing_burst", 1);
+        if reps > 1000 {
+            self.rep.count("fault.aged_past_16_bit_use_count", 1);
+        } else if reps > 255 {
+            self.rep.count("fault.aged_past_8_bit_use_count", 1);
+        }
+        let fail: Option<(u32, String)> = match what {
+            0 => {
+                // simplify with the kept workspace, child recycled into the
+                // storage of the next round
+                let Some((trace, _)) = self.slots[s].trace.clone() else { return };
+                let slot = &self.slots[s];
+                let wk = &mut self.workers[w];
+                let mut storage: F::Storage = wk.fn_stash.pop().unwrap_or_default();
+                let mut fail = None;
+                for k in 0..reps {
+                    let st = std::mem::take(&mut storage);
+                    let ws = &mut wk.ws;
+                    match rt::catch(|| slot.dirty.simplify(&trace, st, ws)) {
+                        Ok(Ok(c)) => storage = c.recycle().unwrap_or_default(),
+                        Ok(Err(_)) => break,
+                        Err(p) => {
+                            wk.ws = Default::default();
+                            if k > 0 {
+                                fail = Some((k, p));
+                            }
+                            break;
+                        }
+                    }
+                }
+                wk.fn_stash.push(storage);
+                fail
+            }
+            1 => {
+                let vars = self.draw_inputs_for(s, nvars);
+                let slot = &self.slots[s];
+                let wk = &mut self.workers[w];
+                let mut fail = None;
+                if let Ok(tape) = rt::catch(|| slot.dirty.point_tape(Default::default())) {
+                    for k in 0..reps {
+                        let ev = &mut wk.pe;
+                        if let Err(p) = rt::catch(|| ev_point::<F>(ev, &tape, &vars)) {
+                            wk.pe = F::new_point_eval();
+                            if k > 0 {
+                                fail = Some((k, p));
+                            }
+                            break;
+                        }
+                    }
+                }
+                fail
+            }
+            2 => {
+                let bx = self.draw_box_for(s, nvars);
+                let vars: Vec<Interval> =
+                    bx.iter().map(|(a, b)| Interval::new(*a, *b)).collect();
+                let slot = &self.slots[s];
+                let wk = &mut self.workers[w];
+                let mut fail = None;
+                if let Ok(tape) = rt::catch(|| slot.dirty.interval_tape(Default::default())) {
+                    for k in 0..reps {
+                        let ev = &mut wk.ie;
+                        if let Err(p) = rt::catch(|| ev_interval::<F>(ev, &tape, &vars)) {
+                            wk.ie = F::new_interval_eval();
+                            if k > 0 {
+                                fail = Some((k, p));
+                            }
+                            break;
+                        }
+                    }
+                }
+                fail
+            }
+            _ => {
+                // tape built into the storage recycled from the previous one
+                let slot = &self.slots[s];
+                let wk = &mut self.workers[w];
+                let mut storage: F::TapeStorage = wk.tape_stash.pop().unwrap_or_default();
+                let mut fail = None;
+                for k in 0..reps.min(3000) {
+                    let st = std::mem::take(&mut storage);
+                    match rt::catch(|| slot.dirty.float_slice_tape(st)) {
+                        Ok(t) => storage = t.recycle().unwrap_or_default(),
+                        Err(p) => {
+                            if k > 0 {
+                                fail = Some((k, p));
+                            }
+                            break;
+                        }
+                    }
+                }
+                wk.tape_stash.push(storage);
+                fail
+            }
+        };
+        if let Some((k, p)) = fail {
+            self.violate10(
+                "aged_object_panics",
+                format!(
+                    "repetition {k} of the same call (kind {what}) on the worker's kept objects panicked although the first one returned: {p}"
+                ),
+            );
         }
     }
 }
